@@ -329,4 +329,41 @@ def r2c(cx):
 
 
 # --- explanation addendum (generated catalogue in DESIGN.md reads RS.explanation)
-RS.explanation += ' Added later: once a pipe end sits on a standard descriptor only the descriptor just moved is closed (R2c).'
+RS.explanation += ' Added later: once a pipe end sits on a standard descriptor only the descriptor just moved is closed (R2c); O_NONBLOCK must not be left on a shared open file description while the shell is suspended (R6, open findings).'
+
+
+def nonblocking_mode_held_across_await(cx):
+    """O_NONBLOCK belongs to the open file description, which forked children and sibling commands share: the shell must not
+    leave it set while it is suspended waiting for the descriptor."""
+    import re as _re
+    F = cx.F
+    users = F.callers_of(lambda n, t: any('TemporaryNonBlockingGuard' in x and x.endswith('::new') for x in n))
+    setters = F.callers_of(lambda n, t: any(x.endswith('Fcntl::get_and_set_nonblocking') for x in n))
+    cx.site('O_NONBLOCK is changed by %s' % sorted({b.root.split('::')[-2] + '::' + b.root.split('::')[-1] for b, _, _ in setters}))
+    if not users:
+        cx.site('no TemporaryNonBlockingGuard is created: nothing holds O_NONBLOCK across a suspension')
+        return
+    for b, blk, t in users:
+        cx.fn(b.fn)
+        live = b.live_blocks()
+        ys = [i for i, bb in enumerate(b.blocks) if bb['t']['k'] == 'yield' and i in live]
+        # the guard is alive until it is dropped (explicit drop terminator of its local) or the function returns
+        g = t['dest']['l']
+        drops = {i for i, bb in enumerate(b.blocks) if bb['t']['k'] == 'drop' and (bb['t'].get('pl') or bb['t'].get('place') or {}).get('l') == g}
+        reach = b.reachable(t['to'], removed=drops) if t.get('to') is not None else set()
+        held = sorted({b.blocks[y]['t'].get('line') for y in ys if y in reach})
+        owner = _re.sub(r'(::\{closure#\d+\})+$', '', b.fn)
+        cx.site('%s: guard created at %s; suspension points while the descriptor is non-blocking: %s' % (owner, b.loc(t), held or 'none'))
+        if held:
+            what = owner.split('::')[-1]
+            cx.violation(owner, 'nonblocking-held-across-await', '%s sets O_NONBLOCK on the descriptor and stays suspended (source lines %s) with '
+                         'the flag set: the flag is a property of the open file description shared with forked children and sibling '
+                         'processes, whose blocking read/write then fails with EAGAIN - `yash -c \'cat big & sleep 0.2; pwd; wait\' | '
+                         '(sleep 1; wc -c)` loses most of the data (cat: write error: Resource temporarily unavailable); and the flag '
+                         'stays set for good if the waiting process is killed' % (what, held), loc=b.loc(t))
+
+
+@RS.rule('C14.R6', 'K-RES', 'the non-blocking mode the shell needs for its own reads and writes is not left on a shared open file description '
+         'while the shell is suspended (another process writing to the same pipe must be able to block)')
+def r6(cx):
+    nonblocking_mode_held_across_await(cx)
